@@ -108,6 +108,7 @@ CHECK_DEADLOCK FALSE
 
 REACH_CFG = """SPECIFICATION %s
 CONSTANTS
+  Alphabet %s
   MaxLen = %d
   FullLen = %d
   RtLen = %d
@@ -379,7 +380,11 @@ def select_rare(evs):
     take("eq24", lambda o: True, 4)
     take("m24", lambda o: True, 4)
     take("cacheff", lambda o: True, 4)
+    take("pend_last", lambda o: True, 6)
     return sel
+
+
+SMALL_ALPHABET = "{0, 1, 2, 3, 128, 255}"     # deep search: few bytes, so that adaptive contexts repeat
 
 
 def boundary_seconds(evs):
@@ -398,7 +403,7 @@ def rare_side(ctx, box, errors):
     specification's encoder.  Thorough: additionally the full reachability
     query is run and must reproduce the recorded list."""
     try:
-        res = ctx.tlc_ok("RangeCoderReach", cfg="confirm.cfg", data={"confirm.cfg": REACH_CFG % ("ConfirmSpec", 0, 0, 0, "Confirmed")},
+        res = ctx.tlc_ok("RangeCoderReach", cfg="confirm.cfg", data={"confirm.cfg": REACH_CFG % ("ConfirmSpec", "<- AllBytes", 0, 0, 0, "Confirmed")},
                          workers=2, timeout=1500, heap="2g", label="RangeCoderReach: recorded rare payloads confirmed")
         evs = reach_events(res["out"])
         m = next((o for o in vlib.parse_tlc_prints(res["out"]) if isinstance(o, dict) and "boundary_seconds" in o), None)
@@ -415,10 +420,13 @@ def rare_side(ctx, box, errors):
                    max_carry_into_pending=max(o["cp"] for o in evs), max_pending=max(o["pend"] for o in evs))
         box["ready"].set()
         if ctx.tier == "thorough":
-            res = ctx.tlc_ok("RangeCoderReach", cfg="reach.cfg", data={"reach.cfg": REACH_CFG % ("Spec", 4, 2, 2, "")},
+            res = ctx.tlc_ok("RangeCoderReach", cfg="reach.cfg", data={"reach.cfg": REACH_CFG % ("Spec", "<- AllBytes", 4, 2, 2, "")},
                              workers=4, timeout=3000, heap="4g",
                              label="RangeCoderReach: every payload of length <= 2, directed search to length 4")
-            full = reach_events(res["out"])
+            res2 = ctx.tlc_ok("RangeCoderReach", cfg="reach.cfg", data={"reach.cfg": REACH_CFG % ("Spec", "= " + SMALL_ALPHABET, 6, 6, 0, "")},
+                              workers=3, timeout=3000, heap="4g",
+                              label="RangeCoderReach: every payload of length <= 6 over the alphabet " + SMALL_ALPHABET)
+            full = reach_events(res["out"]) + reach_events(res2["out"])
             sel = select_rare(full)
             secs = boundary_seconds(full)
             rec = []
@@ -433,7 +441,7 @@ def rare_side(ctx, box, errors):
                 for k in o["kinds"]:
                     by.setdefault(k, {}).setdefault(len(o["pay"]), 0)
                     by[k][len(o["pay"])] += 1
-            box["full_query"] = {"states": res["distinct"], "reported_events_by_kind_and_length": by,
+            box["full_query"] = {"states": res["distinct"] + res2["distinct"], "small_alphabet": SMALL_ALPHABET, "reported_events_by_kind_and_length": by,
                                  "note": "inside the directed subtrees (length 3, 4) only every 16th single-pending event is reported"}
     except Exception as e:  # noqa
         errors.append(e)
